@@ -35,20 +35,57 @@ const KINDS: &[&str] = &[
 const NAMES: &[&str] = &["r0", "r1.js", "r2.gif", "r3", "r4.txt", "r5"];
 const ALIASES: &[&str] = &["a0", "a1", "a2", "a3", "a4", "a5"];
 
+/// The store as the engine must see it: a resource whose name or any alias is already taken is
+/// rejected entirely (nothing of it is registered); earlier resources win.
+fn effective_store(defs: &[ResDef]) -> Vec<ResDef> {
+    let mut taken: std::collections::HashSet<String> = Default::default();
+    let mut out = vec![];
+    for d in defs {
+        let idents: Vec<&String> = std::iter::once(&d.name).chain(d.aliases.iter()).collect();
+        if idents.iter().any(|i| taken.contains(*i)) {
+            continue;
+        }
+        for i in idents {
+            taken.insert(i.clone());
+        }
+        out.push(d.clone());
+    }
+    out
+}
+
 fn gen_store(r: &mut Rng) -> Vec<ResDef> {
     let mut v = vec![];
     for (i, name) in NAMES.iter().enumerate() {
         if r.chance(1, 5) {
             continue; // missing resource
         }
+        let mut aliases = if r.chance(1, 2) { vec![ALIASES[i].to_string()] } else { vec![] };
+        // sometimes a second alias, possibly colliding with another resource's alias or name
+        if r.chance(1, 4) {
+            aliases.push(if r.chance(1, 2) { r.ps(ALIASES).to_string() } else { r.ps(NAMES).to_string() });
+        }
+        if aliases.len() == 2 && r.chance(1, 2) {
+            aliases.swap(0, 1);
+        }
         v.push(ResDef {
             name: name.to_string(),
-            aliases: if r.chance(1, 2) { vec![ALIASES[i].to_string()] } else { vec![] },
+            aliases,
             kind: r.ps(KINDS).to_string(),
             content: format!("content-of-{}", name),
             deps: vec![],
             perm: if r.chance(1, 5) { *r.pick(&[1u8, 2, 128]) } else { 0 },
         });
+    }
+    if r.chance(1, 6) && !v.is_empty() {
+        // a later resource re-using an earlier canonical name (must be rejected)
+        let mut d = r.pick(&v).clone();
+        d.kind = r.ps(KINDS).to_string();
+        d.aliases = vec![format!("late-{}", d.name)];
+        d.content = "late".into();
+        v.push(d);
+    }
+    if r.chance(1, 3) {
+        r.shuffle(&mut v);
     }
     v
 }
@@ -132,7 +169,8 @@ pub fn run(ctx: &mut Ctx) {
             let opts = ParseOptions::default();
             let e = build_engine_with(&rules, opts, true, optimize, &store);
             let mut scan = Scan::new(&rules, opts);
-            let res = ResModel { defs: &store };
+            let effective = effective_store(&store);
+            let res = ResModel { defs: &effective };
             let tags = HashSet::new();
             let mut out = vec![];
             for k in 0..3 {
